@@ -50,10 +50,10 @@ theorem padZero_length (n : Nat) (b : Bytes) (h : b.length ≤ n) : (padZero n b
     protected body longer than 16 bytes, `ccmp_decrypt_unicast` returns the LLC/SNAP parse of the specification's
     CCMP decapsulation over the header bytes (null when the MIC does not verify). -/
 theorem ccmpDecrypt_refines (ip : InnerParser) (E : BlockFn) (hE : ∀ b, (E b).length = 16) (h : Hdr) (wf : h.WF)
-    (hsub : h.subtype < 4 ∨ 8 ≤ h.subtype) (pload : Bytes) (hn : 16 < pload.length) :
+    (hsub : h.subtype < 4 ∨ 8 ≤ h.subtype) (hh : h.htc = false) (pload : Bytes) (hn : 16 < pload.length) :
     ∃ p', ccmpDecrypt ip E h pload = .ok (snapResult ip (Spec.ccmpDecap E h.bytes pload), p') := by
   have hmin : Gen.ccmpMin = 16 := rfl
-  obtain ⟨haad, hnonce, hal1, hal2⟩ := ccmpAad_spec h wf hsub
+  obtain ⟨haad, hnonce, hal1, hal2⟩ := ccmpAad_spec h wf hsub hh
   unfold ccmpDecrypt
   simp only [hmin, if_neg (show ¬ pload.length ≤ 16 by omega), haad,
     rd_ok_of_lt _ pload 7 (by omega), rd_ok_of_lt _ pload 6 (by omega), rd_ok_of_lt _ pload 5 (by omega),
